@@ -151,46 +151,8 @@ def run(ctx: Ctx):
         plain = re.sub(_av11.HO + r".*?" + _av11.HC, "", flat, flags=re.S)
         ctx.check(_av11._is_str(text) and plain == "" and len(holes) == 4, "R11.b", w.key("write"), "all sections are written, nothing else", f"write_ODE_to_ode_file writes {_av11.show(text)[:120]}: not exactly the four sections joined", w.where())
     cls = sm.cls("codegen/ode.py", "GotranODECodePrinter")
-    for mname, seq, helper in (("print_states", "self.ode.states", "print_ScalarParam"), ("print_parameters", "self.ode.parameters", "print_ScalarParam"), ("print_assignments", "self.ode.intermediates + self.ode.state_derivatives", "print_assignment")):
-        f = cls.methods[mname]
-        loops = [n for n in ast.walk(f.node) if isinstance(n, ast.For)]
-        ok = bool(loops) and norm(loops[0].iter) == seq
-        ctx.check(ok, "R11.b", f.key("sequence"), f"iterates {seq}", f"{mname} iterates {norm(loops[0].iter) if loops else None}, not {seq}: some atoms are not saved", f.where())
-        grp = [n for n in ast.walk(f.node) if isinstance(n, ast.Call) and norm(n.func).endswith(".append")]
-        okg = bool(grp) and isinstance(grp[0].func.value, ast.Subscript) and norm(grp[0].func.value.slice).endswith(".components")
-        ctx.check(okg, "R11.b", f.key("grouping"), "grouped by component membership", f"{mname} does not group the atoms by their `components` tuple", f.where())
-        hc = [c for c in ast.walk(f.node) if isinstance(c, ast.Call) and (dotted(c.func) or "") == helper]
-        okh = bool(hc) and call_kw(hc[0], "doprint") is not None and norm(call_kw(hc[0], "doprint")) == "self.doprint"
-        comps = [n for n in ast.walk(f.node) if isinstance(n, ast.ListComp) and hc and any(x is hc[0] for x in ast.walk(n))]
-        okh = okh and bool(comps) and not comps[0].generators[0].ifs
-        ctx.check(okh, "R11.b", f.key("helper"), f"every atom of a group goes through {helper}", f"{mname} does not print every atom of each group with {helper}(.., doprint=self.doprint)", f.where())
-        sb = [c for c in find_calls(f.node, "start_odeblock")]
-        want_case = {"print_states": "states", "print_parameters": "parameters", "print_assignments": "expressions"}[mname]
-        oksb = bool(sb) and all(c.args and const_str(c.args[0]) == want_case and isinstance(call_kw(c, "names"), ast.Name) for c in sb) and any(norm(call_kw(c, "names")) == "components" for c in sb)
-        ctx.check(oksb, "R11.b", f.key("block-header"), f"{want_case}(<component names>)", f"{mname}: block header is not start_odeblock('{want_case}', names=components)", f.where())
-    pa = cls.methods["print_assignments"]
-    loops_pa = [n for n in ast.walk(pa.node) if isinstance(n, ast.For) and norm(n.iter).endswith(".items()")]
-    grp_var = norm(loops_pa[0].iter)[: -len(".items()")] if loops_pa else None
-    grp_def = [n for n in ast.walk(pa.node) if isinstance(n, ast.Assign) and norm(n.targets[0]) == grp_var]
-    hl = [n for n in ast.walk(pa.node) if isinstance(n, ast.Assign) and isinstance(n.value, ast.ListComp) and "start_odeblock" in norm(n.value) and norm(n.value).replace('"', "'").endswith("== '']")]
-    ok_hl = False
-    if grp_def and hl and isinstance(grp_def[0].value, ast.DictComp):
-        first = norm(hl[0].targets[0])
-        it = grp_def[0].value.generators[0].iter
-        ok_hl = isinstance(it, ast.BinOp) and isinstance(it.op, ast.Add) and norm(it.left) == first
-    ctx.check(ok_hl, "R11.b", pa.key("headerless-first"), "the header-less group is written before the named blocks", "print_assignments may write the header-less expressions after a named expressions(...) block; on reload they are absorbed into that block", pa.where())
-    sp = sm.func("codegen/ode.py", "print_ScalarParam")
-    sks = [fstring_skeleton(n.value) for n in ast.walk(sp.node) if isinstance(n, ast.Assign) and norm(n.targets[0]) == "ret"]
-    ctx.check(sorted(s for s in sks if s) == sorted(["{p.name}={doprint(p.value)}", "{p.name}=ScalarParam({doprint(p.value)}{kwargs_str})"]), "R11.b", sp.key("text"), "name=value | name=ScalarParam(value, unit=.., description=..)", f"print_ScalarParam writes {sks}: the value must be the printer's text for p.value, unmodified", sp.where())
-    ud = {norm(n.targets[0]): fstring_skeleton(n.value.orelse) for n in ast.walk(sp.node) if isinstance(n, ast.Assign) and isinstance(n.value, ast.IfExp)}
-    ctx.check(ud.get("unit_str") == 'unit="{p.unit_str}"' and ud.get("description") == 'description="{p.description}"', "R11.b", sp.key("annotations"), "unit and description are written", f"print_ScalarParam: unit/description are written as {ud}", sp.where())
-    pas = sm.func("codegen/ode.py", "print_assignment")
-    sks = [fstring_skeleton(n.value) for n in ast.walk(pas.node) if isinstance(n, ast.Assign) and norm(n.targets[0]) == "s"]
-    ctx.check("{a.name} = {doprint(a.expr)}" in sks, "R11.b", pas.key("text"), "name = <printed expression>", f"print_assignment writes {sks}", pas.where())
-    ctx.check(any(isinstance(n, ast.AugAssign) and fstring_skeleton(n.value) == " # {unit_or_comment}" for n in ast.walk(pas.node)), "R11.b", pas.key("unit"), "unit / comment appended after #", "print_assignment no longer appends the unit or comment", pas.where())
-    so = sm.func("codegen/ode.py", "start_odeblock")
-    gens = [n for n in ast.walk(so.node) if isinstance(n, (ast.GeneratorExp, ast.ListComp))]
-    ctx.check(bool(gens) and fstring_skeleton(gens[0].elt) == '"{n}"' and norm(gens[0].generators[0].iter) == "names" and not gens[0].generators[0].ifs, "R11.b", so.key("names"), "every component name, quoted", "start_odeblock does not write every component name in quotes", so.where())
+    check_writer_sections(ctx, "R11.b", cls)
+    check_writer_helpers(ctx, "R11.b")
 
 
 def check_apply_all(ctx: Ctx, rule: str):
@@ -225,3 +187,162 @@ def check_apply_all(ctx: Ctx, rule: str):
             if not ok:
                 bad = _av.show(c)[:160]
         ctx.check(bad is None, rule, key, "function applied to every child after the name", f"build_expression applies a `{kind}` as `{bad}` instead of to every converted child after the name: And(a, b, c) as written by the saver loses operands on reload", be.where())
+
+
+SECTIONS = {
+    "print_states": ("states", ("sym", "self.ode.states"), "print_ScalarParam", False),
+    "print_parameters": ("parameters", ("sym", "self.ode.parameters"), "print_ScalarParam", False),
+    "print_assignments": ("expressions", ("op", "+", ("sym", "self.ode.intermediates"), ("sym", "self.ode.state_derivatives")), "print_assignment", True),
+}
+
+
+def check_writer_sections(ctx: Ctx, rule: str, cls):
+    """print_states / print_parameters / print_assignments, read from the text they compute: one block per group of
+    atoms with the same `components`, every atom of the sequence in exactly one group, every member printed by the
+    helper, the header naming the group's components; for assignments the header-less group first."""
+    from sa import av as _av
+
+    from . import util
+
+    def same(a, b):
+        return a is not None and b is not None and _av.canon_binders(a) == _av.canon_binders(b)
+
+    for mname, (case, seq, helper, is_expr) in SECTIONS.items():
+        f = cls.methods.get(mname)
+        if f is None:
+            ctx.broken(f"writer method {mname} not found (anchor vanished)")
+        v = util.value_of(ctx, f)
+        outer = [c for c in _av.find_all(v, "comp") if any(x[1] == "start_odeblock" for x in _av.find_all(c[3], "call")) and not any(x[1] == "start_odeblock" for x in _av.find_all(c[2], "call") if False)]
+        outer = [c for c in outer if c[3] and c[3][0][0] in ("s", "list", "call", "join")]
+        keys = {k: f.key(k) for k in ("sequence", "grouping", "helper", "block-header")}
+        if _av.has_unk(v) or not outer:
+            for k in keys.values():
+                ctx.undecided(rule, k, f"what {mname} writes is not understood", f.where())
+            if mname == "print_assignments":
+                ctx.undecided(rule, f.key("headerless-first"), "what print_assignments writes is not understood", f.where())
+            continue
+        oc = outer[0]
+        d1 = oc[1]
+        src = oc[2]
+        # the grouping: every comprehension of (x.components +: x) events found in the value
+        groupings = [c for c in _av.find_all(v, "comp") if len(c[3]) == 1 and c[3][0][0] == "kadd"]
+        D = groupings[0] if groupings else None
+        if D is None:
+            ctx.undecided(rule, keys["grouping"], f"{mname}: how the atoms are grouped is not recognised", f.where())
+            ctx.undecided(rule, keys["sequence"], f"{mname}: how the atoms are grouped is not recognised", f.where())
+        else:
+            ev = D[3][0]
+            okg = ev[1] == ("attr", ("bv", D[1]), "components") and ev[2] == ("bv", D[1]) and not D[4] and all(same(g, D) for g in groupings)
+            ctx.check(okg, rule, keys["grouping"], "grouped by component membership", f"{mname} does not group the atoms by their `components` tuple (it records {_av.show(ev)[:80]}{' under a condition' if D[4] else ''})", f.where())
+            ctx.check(_av._unwrap_seq(D[2]) == seq, rule, keys["sequence"], f"iterates {_av.show(seq)}", f"{mname} iterates {_av.show(D[2])[:80]}, not {_av.show(seq)}: some atoms are not saved", f.where())
+        # key and group of one block
+        if src[0] == "mcall" and src[2] == "items":
+            key_t, grp_t, table = ("bv", d1, 0), ("bv", d1, 1), src[1]
+        else:
+            key_t, grp_t, table = ("bv", d1), None, None
+        sbs = [x for x in _av.find_all(oc[3], "call") if x[1] == "start_odeblock"]
+        okh = bool(sbs) and not oc[4]
+        for x in sbs:
+            kw = dict(x[3])
+            okh = okh and x[2] == (_av.C(case),) and kw.get("names") == key_t and (kw.get("is_expression", _av.C(False)) == _av.C(is_expr))
+        ctx.check(okh, rule, keys["block-header"], f"{case}(<component names>)", f"{mname}: block header is not start_odeblock('{case}', names=<the group's components>) for every group ({_av.show(sbs[0])[:100] if sbs else 'no header'})", f.where())
+        inner = [c for c in _av.find_all(oc[3], "comp") if any(x[1] == helper for x in _av.find_all(c[3], "call"))]
+        okm = False
+        if inner:
+            ic = inner[0]
+            want_item = ("call", helper, (("bv", ic[1]),), (("doprint", ("sym", "self.doprint")),))
+            grp_ok = ic[2] == grp_t if grp_t is not None else (D is not None and ic[2][0] == "sub" and same(ic[2][1], D) and ic[2][2] == key_t)
+            okm = ic[3] == (want_item,) and not ic[4] and grp_ok
+        ctx.check(okm, rule, keys["helper"], f"every atom of a group goes through {helper}", f"{mname} does not print every atom of each group with {helper}(.., doprint=self.doprint)", f.where())
+        if mname != "print_assignments":
+            if table is not None and D is not None:
+                ctx.check(same(table, D), rule, f.key("all-groups"), "one block per group", f"{mname} writes blocks for {_av.show(table)[:80]}, not for every group of atoms", f.where())
+            continue
+        # header-less group first
+        hk = f.key("headerless-first")
+        if table is not None and same(table, D):
+            ctx.fail(rule, hk, "print_assignments may write the header-less expressions after a named expressions(...) block; on reload they are absorbed into that block", f.where())
+            continue
+        ok_hl = None
+        if table is not None and table[0] == "comp" and len(table[3]) == 1 and table[3][0][0] == "kv" and D is not None:
+            order = _av._unwrap_seq(table[2])
+            kvi = table[3][0]
+            values_ok = kvi[1] == ("bv", table[1]) and kvi[2][0] == "sub" and same(kvi[2][1], D) and kvi[2][2] == ("bv", table[1]) and not table[4]
+            if order[0] == "list" and len(order[1]) == 2 and all(x[0] == "spread" and x[1][0] == "comp" for x in order[1]):
+                first, second = order[1][0][1], order[1][1][1]
+
+                def is_headerless(c):
+                    return len(c[4]) == 1 and c[4][0] == ("cmp", "==", ("call", "start_odeblock", (_av.C("expressions"),), (("is_expression", _av.C(True)), ("names", ("bv", c[1])))), _av.C("")) and c[3] == (("bv", c[1]),) and c[2][0] == "mcall" and c[2][2] == "keys" and same(c[2][1], D)
+
+                def is_rest(c):
+                    return len(c[4]) == 1 and c[4][0][0] == "cmp" and c[4][0][1] == "not in" and c[4][0][2] == ("bv", c[1]) and c[3] == (("bv", c[1]),) and c[2][0] == "mcall" and c[2][2] == "keys" and same(c[2][1], D) and _av.canon_binders(c[4][0][3]) == _av.canon_binders(first)
+
+                if is_headerless(first) and is_rest(second):
+                    ok_hl = values_ok
+                elif is_headerless(second):
+                    ok_hl = False
+        if ok_hl is None:
+            ctx.undecided(rule, hk, "print_assignments: the order of the blocks (header-less group first) is not built in the recognised way", f.where())
+        else:
+            ctx.check(ok_hl, rule, hk, "the header-less group is written before the named blocks", "print_assignments may write the header-less expressions after a named expressions(...) block; on reload they are absorbed into that block", f.where())
+
+
+def check_writer_helpers(ctx: Ctx, rule: str):
+    """print_ScalarParam / print_assignment / start_odeblock: the texts they can return."""
+    from sa import av as _av
+
+    from . import util
+    from .c03 import _branches
+
+    sm = ctx.sm
+
+    def leaves(f):
+        v = util.value_of(ctx, f)
+        if _av.has_unk(v):
+            return None, v
+        v = _av.distribute_ifs(v)
+        out = []
+        for _c, leaf in _branches(v):
+            out.append(leaf)
+        return out, v
+
+    def flat(x):
+        return _av.flatten(x).replace(_av.HO, "{").replace(_av.HC, "}") if _av._is_str(x) else None
+
+    sp = sm.func("codegen/ode.py", "print_ScalarParam")
+    lv, v = leaves(sp)
+    p0, dp = sp.params[0], sp.params[1] if len(sp.params) > 1 else "doprint"
+    if lv is None:
+        ctx.undecided(rule, sp.key("text"), "what print_ScalarParam returns is not understood", sp.where())
+        ctx.undecided(rule, sp.key("annotations"), "what print_ScalarParam returns is not understood", sp.where())
+    else:
+        texts = [flat(x) for x in lv]
+        plain = f"{{{p0}.name}}={{{dp}({p0}.value)}}"
+        head = f"{{{p0}.name}}=ScalarParam({{{dp}({p0}.value)}}"
+        ok = all(t is not None and (t == plain or (t.startswith(head) and t.endswith(")"))) for t in texts) and plain in texts and any(t != plain for t in texts if t)
+        ctx.check(ok, rule, sp.key("text"), "name=value | name=ScalarParam(value, unit=.., description=..)", f"print_ScalarParam writes {sorted(set(t or '?' for t in texts))[:3]}: the value must be the printer's text for p.value, unmodified", sp.where())
+        strs = util.strings_in(v)
+        ctx.check(any(f'unit="{{{p0}.unit_str}}"' in t for t in strs) and any(f'description="{{{p0}.description}}"' in t for t in strs), rule, sp.key("annotations"), "unit and description are written", "print_ScalarParam: unit / description are no longer written as unit=\"..\" / description=\"..\"", sp.where())
+    pas = sm.func("codegen/ode.py", "print_assignment")
+    lv, v = leaves(pas)
+    a0, dp = pas.params[0], pas.params[1] if len(pas.params) > 1 else "doprint"
+    if lv is None:
+        ctx.undecided(rule, pas.key("text"), "what print_assignment returns is not understood", pas.where())
+        ctx.undecided(rule, pas.key("unit"), "what print_assignment returns is not understood", pas.where())
+    else:
+        texts = [flat(x) for x in lv]
+        plain = f"{{{a0}.name}} = {{{dp}({a0}.expr)}}"
+        ok = all(t is not None and (t == plain or t.startswith(plain + " # {")) for t in texts) and plain in texts
+        ctx.check(ok, rule, pas.key("text"), "name = <printed expression>", f"print_assignment writes {sorted(set(t or '?' for t in texts))[:3]}", pas.where())
+        tails = [t[len(plain):] for t in texts if t and t.startswith(plain + " # {")]
+        oku = bool(tails) and all(f"{a0}.unit_str" in t and f"{a0}.comment.text" in t for t in tails)
+        ctx.check(oku, rule, pas.key("unit"), "unit / comment appended after #", "print_assignment no longer appends the unit or comment", pas.where())
+    so = sm.func("codegen/ode.py", "start_odeblock")
+    v = util.value_of(ctx, so)
+    if _av.has_unk(v):
+        ctx.undecided(rule, so.key("names"), "what start_odeblock returns is not understood", so.where())
+    else:
+        names = so.params[1] if len(so.params) > 1 else "names"
+        joins = [j for j in _av.find_all(v, "join") if j[2][0] == "comp"]
+        okn = bool(joins) and all(j[1] == _av.C(", ") and j[2][2] == ("sym", names) and not j[2][4] and len(j[2][3]) == 1 and flat(j[2][3][0]) == '"{$%d}"' % j[2][1] for j in joins)
+        ctx.check(okn, rule, so.key("names"), "every component name, quoted", "start_odeblock does not write every component name in quotes" + (f" (it writes {_av.show(joins[0])[:80]})" if joins else ""), so.where())
